@@ -34,7 +34,7 @@ var allTypeNames = func() []typeName {
 
 var outsideNames = []string{"Bogus", "note", "NOTE", "IRI", "ItemCollection", "IRICollection", "Extension2", "object"}
 
-var typeContexts = []string{"registry", "json-top", "json-item", "json-list", "json-items", "gob-top", "gob-item", "gob-list"}
+var typeContexts = []string{"registry", "json-top", "json-item", "json-list", "json-list-mixed", "json-items", "gob-top", "gob-item", "gob-list"}
 
 const markerName = "marker text"
 
@@ -216,6 +216,25 @@ func observeType(c *Ctx, name string, k vmodel.StructKind, ctx string) (typeOutc
 			} else {
 				out = outcomeOf(nil, fmt.Errorf("outer document did not decode to an object: %T %v", it, err))
 			}
+		case "json-list-mixed":
+			// the list also holds a member whose type is outside the vocabulary (Mastodon's Hashtag beside a Mention): whatever
+			// becomes of that member, the one under test is found by exclusion
+			const first, hashtag = "https://example.com/first", "https://example.com/tags/x"
+			b, _ := json.Marshal(map[string]any{"id": "https://example.com/outer", "type": "Note", "tag": []any{first,
+				map[string]any{"id": hashtag, "type": "Hashtag", "name": "#x", "href": hashtag}, typeDoc(name, id)}})
+			it, err := vocab.UnmarshalJSON(b)
+			keepDecoded(c, "type", vmodel.Exact, it, name+" "+ctx)
+			if o, ok := it.(*vocab.Object); ok && err == nil {
+				out = outcomeOf(nil, nil)
+				for _, m := range o.Tag {
+					if vocab.IsNil(m) || m.GetLink() == first || m.GetLink() == hashtag {
+						continue
+					}
+					out = outcomeOf(m, nil)
+				}
+			} else {
+				out = outcomeOf(nil, fmt.Errorf("outer document did not decode to an object: %T %v", it, err))
+			}
 		case "json-items":
 			b, _ := json.Marshal(map[string]any{"id": "https://example.com/outer", "type": "OrderedCollection", "totalItems": 1, "orderedItems": []any{typeDoc(name, id)}})
 			it, err := vocab.UnmarshalJSON(b)
@@ -362,7 +381,7 @@ func init() {
 	nCtx := len(typeContexts)
 	Register(&Prop{
 		ID: "C07",
-		Rule: fmt.Sprintf("finite and enumerated completely on every run: %d vocabulary names (every name of the literal W3C table incl. the generic names and the empty name) x %d contexts (registry; JSON top level, nested in an item position, in a list position, in orderedItems; gob top level, nested in an item and a list position) x {hooks unset, hooks set}; the struct kind must be the one the table assigns, the id, a marker property of the object core and a marker property that only that struct kind declares must come back; family predicates, IsObject/IsLink/IsCollection methods, membership lists and the family's On/To helper must agree with the table; %d names outside the vocabulary must yield an error, nothing, or (registry) a blank untyped object - never a value of a wrong vocabulary type; outcomes with hooks installed must equal those without for every vocabulary name; distinct = cell; non-trivial = all",
+		Rule: fmt.Sprintf("finite and enumerated completely on every run: %d vocabulary names (every name of the literal W3C table incl. the generic names and the empty name) x %d contexts (registry; JSON top level, nested in an item position, in a list position, in a list position beside a member typed outside the vocabulary, in orderedItems; gob top level, nested in an item and a list position) x {hooks unset, hooks set}; the struct kind must be the one the table assigns, the id, a marker property of the object core and a marker property that only that struct kind declares must come back; family predicates, IsObject/IsLink/IsCollection methods, membership lists and the family's On/To helper must agree with the table; %d names outside the vocabulary must yield an error, nothing, or (registry) a blank untyped object - never a value of a wrong vocabulary type; outcomes with hooks installed must equal those without for every vocabulary name; distinct = cell; non-trivial = all",
 			len(allTypeNames), nCtx, len(outsideNames)),
 		Layers: func(tier string) []Layer {
 			return []Layer{
